@@ -36,3 +36,9 @@ Definition state_eqb (a b : state) : bool :=
 (* case = (clock now, state before, state after the real _clean_up_state (None = it raised)) *)
 Definition check_cleanup (c : Z * state * option state) : bool :=
   let '(now, s, expected) := c in oeqb state_eqb (cleanup_now now s) expected.
+
+(* the hypothesis `refs_ok` of the clean-up theorems on an abstracted real state, before and after
+   the model's own clean-up *)
+Definition check_refs (c : Z * state * option state) : bool :=
+  let '(now, s, expected) := c in
+  refs_okb s && match cleanup_now now s with Some s' => refs_okb s' | None => false end.
